@@ -14,7 +14,7 @@ RULE = (
     "x load factor x equal/different ny); non-trivial = distinct configurations with non-zero mass"
 )
 ASSUMPTIONS = ["finite alphabets; ny<=5, <=2 point masses", "g = 9.80665", "OpenMDAO/NumPy trusted"]
-BOUND = {"quick": "ny in {2,3} half / {3,5} full", "thorough": "ny up to 7"}
+BOUND = {"quick": "ny in {2,3} half / {3,5} full exhaustively + beams of 16 / 21 / 41 nodes", "thorough": "ny up to 7"}
 G0 = 9.80665
 TOL = 1e-10
 
@@ -44,6 +44,11 @@ def states(tier, seed):
         # every inertial load source ALONE: without structural weight relief (the load factor reaches each source by its own wiring)
         if pf == "swept" and (fm is not None or pm != "none") and not (fm is not None and pm != "none" and tier == "quick"):
             st.append(dict(pf=pf, side=side, ny=ny, model=model, nfac=nfac, fuel=fm, reserve=res, pm=pm, relief=False, fam=fam))
+    # production-size beams (node / element indexing of every load source beyond ny = 7)
+    for pf, (side, ny), model, (fm, res), pm in itertools.product(["twdi"], [("left", 21), ("full", 41), ("right", 16)], ["tube", "wingbox"], [(None, 0.0), (1.0e4, 500.0)], ["none", "two"]):
+        if fm is not None and model == "tube":
+            continue
+        st.append(dict(pf=pf, side=side, ny=ny, model=model, nfac=2.5, fuel=fm, reserve=res, pm=pm, fam=fam))
     # the same identities inside a two-surface AerostructPoint: every surface that carries inertial loads sees the load factor of the flight point
     for sym, (sw, st_), nfac, same, model in itertools.product([True, False], [("relief", "relief"), ("relief", "none"), ("none", "relief"), ("fuel", "relief"), ("relief", "fuel"), ("fuel", "fuel")], [2.5, -1.0], [True, False], ["tube", "wingbox"]):
         if "fuel" in (sw, st_) and model == "tube":
